@@ -4,6 +4,7 @@ import (
 	"go/token"
 	"go/types"
 	"sort"
+	"strings"
 
 	"golang.org/x/tools/go/ssa"
 )
@@ -192,6 +193,15 @@ func (x *Exec) writes(fn *ssa.Function, seen map[*ssa.Function]bool) *writeSet {
 		return ws
 	}
 	seen[fn] = true
+	if pk := pkgOf(fn); pk == nil || !strings.HasPrefix(pk.Path(), "github.com/peterstace/simplefeatures") {
+		// standard-library code: functions that write through their arguments are
+		// modelled explicitly (models.go); everything else is assumed not to write
+		// memory the verified code can observe (A-std-pure)
+		ws.alloc = true
+		delete(seen, fn)
+		x.writeCache[fn] = ws
+		return ws
+	}
 	if fn.Blocks == nil {
 		ws.all = !x.knownPureExternal(fn)
 		return ws
